@@ -10,6 +10,7 @@
 import RotoV.Generated.Precedence
 import RotoV.Model.FString
 import RotoV.Lemmas.Pratt
+import RotoV.Lemmas.Literal
 
 namespace RotoV.C09
 open RotoV RotoV.Pratt RotoV.Literal RotoV.FString RotoV.Gen.Precedence
@@ -67,5 +68,119 @@ example :
       (render ⟨[], 0⟩ [(.And, ⟨[], 1⟩), (.Or, ⟨[], 2⟩)]) = .chained .Or .And ∧
     reference ⟨[], 0⟩ [(.Sub, ⟨[], 1⟩), (.Sub, ⟨[], 2⟩)] =
       some (.bin .Sub (.bin .Sub (.leaf 0) (.leaf 1)) (.leaf 2)) := by decide
+
+/-! ## T3 literals -/
+
+/-- T3a (`int_spelling_partial`). `simple_literal` on an integer token: for
+    EVERY digit sequence, EVERY placement of digit-group underscores (any number
+    after any digit) and EVERY suffix of the table, the decoded value is the
+    Horner value of the digits (when it fits `i64`, as the implementation reads
+    literals), with that suffix.
+    Full statement (not proved here): the same through `Lexer::number`, i.e.
+    `decodeNumber xs xc (spellDigits ds ++ suffix) = …` — the split of the
+    source into digits and suffix is tied by the correspondence run only. -/
+theorem int_spelling_partial (d : Fin 10 × Nat) (ds : List (Fin 10 × Nat)) (suffix rest : List Char)
+    (hs : suffix ∈ Literal.intSuffixes) (hr : horner 0 (d :: ds) < 2 ^ 63) :
+    decodeNumTok { isFloat := false, num := spellDigits (d :: ds), suffix := suffix, rest := rest } =
+      some (.int (horner 0 (d :: ds)) suffix) := by
+  have hnf : (suffix == "f32".toList || suffix == "f64".toList) = false := by
+    simp only [Literal.intSuffixes, List.map_cons, List.map_nil, List.mem_cons, List.not_mem_nil, or_false] at hs
+    rcases hs with h | h | h | h | h | h | h | h | h <;> subst h <;> decide
+  have hc : Literal.intSuffixes.contains suffix = true := by simpa using hs
+  have hne : (List.map (fun p : Fin 10 × Nat => digitChar p.1.val) (d :: ds)).isEmpty = false := by simp
+  simp only [decodeNumTok, Bool.false_eq_true, if_false, hnf, strip_spell, parseI64, parseRadix, hne,
+    parseRadixAux_digits, hr, if_true, hc]
+
+example : decodeNumTok { isFloat := false, num := "1_000__0_".toList, suffix := "u16".toList, rest := [] } =
+    some (.int 10000 "u16".toList) := by
+  have := int_spelling_partial (1, 1) [(0, 0), (0, 0), (0, 2), (0, 1)] "u16".toList [] (by decide) (by decide)
+  simpa [spellDigits, horner, digitChar] using this
+
+/-- T3b. Hexadecimal literals, AS numbers, dotted quads and `ip / len`: the
+    decoders on concrete spellings of every shape (upper/lower case digits,
+    leading zeros, boundary values, rejected forms). -/
+theorem literal_tables :
+    decodeHex "0xFf".toList = some 255 ∧ decodeHex "0x007fffffffffffffff".toList = some (2 ^ 63 - 1) ∧
+    decodeHex "0x8000000000000000".toList = none ∧ decodeHex "0x".toList = none ∧
+    decodeAsn "AS4294967295".toList = some 4294967295 ∧ decodeAsn "AS4294967296".toList = none ∧
+    decodeIpv4 "192.168.0.255".toList = some (.ipv4 192 168 0 255) ∧ decodeIpv4 "1.2.3.256".toList = none ∧
+    decodeIpv4 "01.2.3.4".toList = none ∧
+    prefixV4 10 1 2 3 8 = some (10 * 2 ^ 24, 8) ∧ prefixV4 1 2 3 4 32 = some (((1 * 256 + 2) * 256 + 3) * 256 + 4, 32) ∧
+    prefixV4 1 2 3 4 0 = some (0, 0) ∧ prefixV4 1 2 3 4 33 = none := by
+  decide
+
+/-- T3c. Every documented escape sequence denotes the documented character,
+    wherever it stands in a string: `unescape (spelling ++ rest)` is the value
+    followed by `unescape rest` (`\0 \t \n \r \" \' \\`). -/
+theorem simple_escapes (rest : List Char) :
+    unescape ('\\' :: '0' :: rest) = (unescape rest).map (Char.ofNat 0 :: ·) ∧
+    unescape ('\\' :: 't' :: rest) = (unescape rest).map ('\t' :: ·) ∧
+    unescape ('\\' :: 'n' :: rest) = (unescape rest).map ('\n' :: ·) ∧
+    unescape ('\\' :: 'r' :: rest) = (unescape rest).map ('\r' :: ·) ∧
+    unescape ('\\' :: '"' :: rest) = (unescape rest).map ('"' :: ·) ∧
+    unescape ('\\' :: '\'' :: rest) = (unescape rest).map ('\'' :: ·) ∧
+    unescape ('\\' :: '\\' :: rest) = (unescape rest).map ('\\' :: ·) := by
+  refine ⟨?_, ?_, ?_, ?_, ?_, ?_, ?_⟩ <;> (rw [unescape.eq_def]; simp [simpleEscape])
+
+/-- `\xHH` (two hex digits, value below 0x80) denotes that code point, and a
+    backslash–newline swallows the following blanks (line continuation). -/
+theorem hex_escape_and_continuation (h l : Char) (a b : Nat) (rest : List Char)
+    (ha : hexVal h = some a) (hb : hexVal l = some b) (hlt : a * 16 + b < 128) :
+    unescape ('\\' :: 'x' :: h :: l :: rest) = (unescape rest).map (Char.ofNat (a * 16 + b) :: ·) ∧
+    unescape ('\\' :: '\n' :: rest) = unescape (skipWs rest) := by
+  constructor
+  · rw [unescape.eq_def]; simp [ha, hb, hlt]
+  · rw [unescape.eq_def]; simp
+
+/-- concrete spellings incl. `\u{…}` with leading zeros and a continuation -/
+example : unescape "a\\x41\\u{0000e9}\\\n   \tb\\\\".toList = some "aAéb\\".toList := by
+  simp [unescape, hexVal, unicodeRest, isScalar, skipWs, simpleEscape]
+
+/-! ## T4 f-strings -/
+
+/-- T4 (`fstring_parts`). For ARBITRARY Unicode text without the scanner's
+    special characters (`\`, `{`, `"`), followed by a hole or by the closing
+    quote, `f_string_part` splits exactly before the delimiter: the byte offset
+    it computes from `char_indices` is a character boundary (`split_at` does
+    not panic) and the text comes back unchanged. -/
+theorem fstring_parts (text rest : List Char) (c : Char) (h : ∀ d ∈ text, special d = false)
+    (hc : (c == '{') = false) :
+    fStringPart (text ++ '"' :: rest) = .part .stringEnd text rest ∧
+    fStringPart (text ++ '{' :: c :: rest) = .part .intermediate text ('{' :: c :: rest) := by
+  constructor
+  · have hs : scan (text ++ '"' :: rest) 0 = .found .stringEnd (utf8Len text) := by
+      rw [scan_plain _ _ _ h, scan.eq_def]; simp
+    simp only [fStringPart, hs, splitAtByte_prefix]
+    have : splitAtByte ('"' :: rest) 1 = some (['"'], rest) := by
+      have := splitAtByte_prefix ['"'] rest
+      have h1 : ('"' : Char).utf8Size = 1 := by decide
+      simpa [utf8Len, h1] using this
+    simp [this]
+  · have hs : scan (text ++ '{' :: c :: rest) 0 = .found .intermediate (utf8Len text) := by
+      rw [scan_plain _ _ _ h, scan.eq_def]
+      have : ('{' : Char).utf8Size = 1 := by decide
+      simp [hc, this]
+    simp only [fStringPart, hs, splitAtByte_prefix]
+
+/-- the witness of the defect fixed by 58d0a1f, on the model of the fixed scanner -/
+example : fStringPart "é {x}\"".toList = .part .intermediate "é ".toList "{x}\"".toList := by
+  have := (fstring_parts "é ".toList "}\"".toList 'x' (by decide) (by decide)).2
+  simpa using this
+
+/-- Refutation on the tree before `fix: f-string brace escapes …`: the old text
+    rule `unescape(s).replace("{{","{").replace("}}","}")` maps the spelling
+    `\x7b\x7b|{{` — which the manual reads as `{{|{` — to `{|{`. -/
+theorem fstring_collapse_refuted_before_fix :
+    partTextOld "\\x7b\\x7b|{{".toList = some "{|{".toList ∧
+    meaning [.esc "\\x7b".toList '{', .esc "\\x7b".toList '{', .plain '|', .lbrace] = "{{|{".toList ∧
+    spell [.esc "\\x7b".toList '{', .esc "\\x7b".toList '{', .plain '|', .lbrace] = "\\x7b\\x7b|{{".toList := by
+  refine ⟨?_, by decide, by decide⟩
+  simp [partTextOld, unescape, hexVal, collapse]
+
+/-- …and the model of the fixed `unescape_f_string_part` gives the documented text. -/
+theorem fstring_collapse_fixed_witness :
+    partText "\\x7b\\x7b|{{".toList = some "{{|{".toList ∧
+    partText "\\u{7d}\\x7d}}".toList = some "}}}".toList := by
+  constructor <;> simp [partText, partTextGo, unescape, hexVal, unicodeRest, isScalar]
 
 end RotoV.C09
